@@ -40,11 +40,12 @@ def extreme_id_case(rng):
     come back (a rejected call is fine)"""
     dt = rng.choice(["u8", "f32", "u1", "i16"])
     ops = ["wopen", "src 1 e e e e e", proglib.sigdef_op(3, 1, dt)]
-    base = rng.choice([I64MAX - 7, I64MAX - 16, I64MAX - 40000, -I64MAX - 1, -I64MAX + 5])
+    # every id in the script is a valid int64; only the sums / differences the library forms with them leave the range
+    base = rng.choice([I64MAX - 120, I64MAX - 40000, -I64MAX - 1, -I64MAX + 5])
     ops.append("fsr 3 %d %d 0 0" % (base, rng.choice([1, 8, 16])))
-    ops.append("fsr 3 %d %d 0 0" % (base + rng.choice([0, 4, 8, 16]), rng.choice([8, 16, 100])))
+    ops.append("fsr 3 %d %d 0 0" % (base + rng.choice([0, 4, 8, 16]), rng.choice([8, 16, 100, 200])))
     if rng.random() < 0.5:
-        ops.append("fsr 3 %d 8 0 0" % (base - rng.choice([1, 100])))
+        ops.append("fsr 3 %d 8 0 0" % max(-I64MAX - 1, base - rng.choice([1, 100])))
     ops += ["wclose", "ropen", "len 3", "rd 3 0 8", "rclose"]
     return ";".join(ops), dict(dist=["extreme_sample_id"], defined={3: (dt, False)}, threaded=False)
 
@@ -54,7 +55,7 @@ def huge_gap_case(rng):
     return in any reasonable time and no error code limits the gap)"""
     ops = ["wopen", "src 1 e e e e e", proglib.sigdef_op(3, 1, rng.choice(["u1", "u8"])), "fsr 3 0 8 0 0",
            "fsr 3 %d 8 0 0" % rng.choice([2**40, 2**50, 2**62]), "wclose"]
-    return ";".join(ops), dict(dist=["huge_gap"], defined={}, threaded=False, huge_gap=True)
+    return ";".join(ops), dict(dist=["huge_gap"], defined={}, threaded=False, huge_gap=True, no_model=True)
 
 
 def gen_case(rng, tier):
